@@ -68,7 +68,7 @@ CHECKS["C05"] = {
     "rule": "unit = (order, N, duration word, scale); every unit calls propagateGrad with EVERY unit upstream vector (each coefficient entry of each coordinate, each duration) for the full data basis + generic data and compares each output with the exact Jacobian of the reference construction map (jets through the dense long-double solve); plus, per unit, all call sequences of length <= 3 over 4 upstream vectors vs a fresh object (bitwise), value vs reference overload (bitwise), linearity; non-trivial = N >= 2",
     "bounds": {"quick": "3 orders x DIM 1..4 x (N 1..4 all 3^N words, N 5 all 2^N words) x full data basis x all unit upstream vectors",
                "thorough": "3 orders x DIM {1,2,3,4,5,10} x (N 1..6 all 3^N words; N 7..9 all 2^N words) x 3 scales x full data basis x all unit upstream vectors"},
-    "thresholds": {"normalised Jacobian error (cubic/quintic/septic)": [1e-8, 1e-7, 1e-6], "history/overload": "bitwise", "linearity": 1e-9},
+    "thresholds": {"normalised Jacobian error (cubic/quintic/septic)": [1e-8, 1e-7, 1e-6], "history/overload": "bitwise", "linearity": "10 x the Jacobian threshold (rounding of the same solves)"},
     "assumptions": ASSUME_COMMON,
     "technique": TECH_E1 + "; by linearity the unit upstream vectors are ALL upstream gradients; oracle = forward-mode jets through an independent dense solve",
     "level_text": "the full transpose-Jacobian is assembled from the library on every lattice case and compared entry by entry with an independent exact Jacobian; covers N=1, N=2, both septic DIM branches (DIM<=3, DIM>3) and the column-major 1-D layout",
@@ -79,7 +79,7 @@ CHECKS["C06"] = {
     "rule": "unit = (order, N, duration word, scale); every unit compares getEnergyGrad (and the individual getters, bitwise among themselves), the partial gradients (vs exact formulas on the published coefficients) and propagateGrad(partials) with d(reference energy)/d(input) obtained from the reference model only, for the data basis, basis pairs (energy is quadratic) and generic data; non-trivial = N >= 2",
     "bounds": {"quick": "3 orders x DIM 1..4 x (N 1..4 all 3^N words, N 5 all 2^N words) x basis + neighbouring basis pairs + generic",
                "thorough": "3 orders x DIM {1,2,3,4,5,10} x (N 1..7 all 3^N words; N 8,9 all 2^N words) x 3 scales x basis + all basis pairs + generic"},
-    "thresholds": {"normalised gradient error (cubic/quintic/septic)": [1e-8, 1e-7, 1e-6], "partials vs closed form": 1e-11},
+    "thresholds": {"normalised gradient error (cubic/quintic/septic)": [1e-7, 1e-7, 1e-6], "partials vs closed form": 1e-11},
     "assumptions": ASSUME_COMMON,
     "technique": TECH_E1 + "; oracle = jets of the reference energy (independent of the library's coefficients) + exact closed forms on published coefficients",
     "level_text": "total derivatives of the reference energy w.r.t. every duration, waypoint and boundary component are compared with the library on every lattice case, with non-zero boundary derivatives included through the basis",
@@ -117,6 +117,48 @@ CHECKS["C14"] = {
     "assumptions": ASSUME_COMMON,
     "technique": TECH_E1 + "; metamorphic oracles (no reference model): exact power-of-two scaling laws, shift invariance, time-reversal symmetry",
     "level_text": "every lattice case is transformed five ways and the transformed object compared with the transformed original; time reversal exposes any asymmetry between first-block and last-block special cases",
+}
+
+CHECKS["C03"] = {
+    "engine": "E1 lattice explorer + E2 history exploration of the hint protocol",
+    "jobs": lambda tier: [job("C03.cpp", "C03")],
+    "rule": "unit = configuration (DIM in 1..3, ORDER template in {Dynamic,4,6,8,12}, coefficient count 1..12 where allowed, segments in {1,2,3,31,32,33,40}, breakpoint variant incl. one repeated breakpoint); every unit sweeps t over {every breakpoint, one ulp either side, midpoints, far outside} x k = 0..count+1 and compares the plain route with the exact-polynomial oracle on the piece chosen by the half-open rule, and every other route (hinted from EVERY hint value in {INT_MIN,-5,-1,0..n-1,n,n+7,INT_MAX}, batch, []/at()/iterator + local time, Deriv enum, derivative(j).evaluate(t,k-j) for every j<=k) bitwise with the plain route; hint must equal the piece index afterwards; the only state between hinted calls is the caller's int, so the single-step sweep over all hint values is the complete transition relation (argument S); confirmed directly by all hinted call sequences of length <=3 (n=3) / <=2 quick, <=3 thorough (n=33); non-trivial = coefficient count >= 2",
+    "bounds": {"quick": "1428 configurations; hint histories: 12^3 (n=3), 138^2 (n=33)", "thorough": "1428 configurations; hint histories: 12^3 (n=3), 138^3 (n=33)"},
+    "thresholds": {"plain value vs exact oracle": "8*count ulp of sum|terms| + |p'| 2 ulp(t)", "between routes": "bitwise"},
+    "assumptions": ASSUME_COMMON,
+    "technique": "bounded exhaustive enumeration of configurations x inputs x hint values (complete transition relation of the hint protocol) + exhaustive hinted-call sequences to depth 3 on the real code; oracle = exact polynomial calculus",
+    "level_text": "all configurations crossing the static-table limit (8 coefficients) and the linear/binary search threshold (32 segments), all breakpoint-adjacent floating-point inputs, all hint values; routes compared bitwise",
+}
+
+TECH_E2 = "explicit-state breadth-first search over operation histories on the real objects (state = history replayed on fresh objects, de-duplicated on the full private state), run to fixpoint or a stated depth"
+
+CHECKS["C11"] = {
+    "engine": "E2 history explorer",
+    "jobs": lambda tier: [job("C11.cpp", "C11_w%d" % w, ["-DVWORLD=%d" % w], shards=1) for w in range(6)],
+    "rule": "state = operation history over {update with 6 data sets (same shape / other segment count / other coefficient count / two invalid), evaluate at orders 0/1/top/beyond, hinted evaluate, derivative trajectory, copy-assign, copy-construct, self-assign, swap roles, ...} for PPolyND<2,Dynamic>, PPolyND<2,8>, PPolyND<1,12>, and {update via both overloads with 4 problems, evaluate trajectory, getTrajectoryCopy, copy-assign/construct spline, update copy, propagateGrad, ...} for the three spline classes; after EVERY transition every live object must evaluate (all orders, probe grid, plain + hinted) bit-identically to a fresh object built from its own latest data; distinct = distinct canonical keys (entire private state incl. lazy caches and ready flags); non-trivial = histories of length >= 2",
+    "bounds": {"quick": "6 worlds, BFS to depth 6 or fixpoint", "thorough": "6 worlds, BFS to depth 12 or fixpoint"},
+    "thresholds": {"all comparisons": "bitwise"},
+    "assumptions": ASSUME_COMMON + ["canonical key reads private members through -fno-access-control"],
+    "technique": TECH_E2 + "; oracle = fresh-object differential (R5), bitwise",
+    "level_text": "the reachable state graph of the update/evaluate/copy/derivative alphabet is explored exhaustively; the evidence states whether the fixpoint was reached (then the invariant holds for histories of any length)",
+}
+
+def c10_jobs(tier):
+    js = []
+    for o in (2, 3, 4):
+        for d in (1, 3, 4):
+            js.append(job("C10.cpp", "C10_s%d_d%d" % (o, d), ["-DVORDER=%d" % o, "-DVDIM=%d" % d], shards=1, weight=o * d))
+    return js
+
+CHECKS["C10"] = {
+    "engine": "E2 history explorer",
+    "jobs": c10_jobs,
+    "rule": "state = history over {update by durations / by time points with 5 problems (N = 1, 2, 3, 5, 3'), getEnergy, getEnergyGrad, partial gradients, propagateGrad(unit / dense), evaluate grid} on one spline object; after EVERY transition ALL observables (coefficients, knot times, energy, energy gradients, partials, propagateGrad for two upstream vectors, evaluations at all orders) are compared bitwise with a freshly constructed spline given only the latest inputs; canonical key = every private member incl. factor caches and workspaces; non-trivial = histories of length >= 2",
+    "bounds": {"quick": "3 orders x DIM {1,3,4}: BFS to depth 6 or fixpoint", "thorough": "3 orders x DIM {1,3,4}: BFS to depth 10 or fixpoint"},
+    "thresholds": {"all comparisons": "bitwise"},
+    "assumptions": ASSUME_COMMON + ["canonical key reads private members through -fno-access-control"],
+    "technique": TECH_E2 + "; oracle = fresh-object differential (R5), bitwise",
+    "level_text": "all histories of growing/shrinking updates (both overloads, incl. N=1 and N=2) interleaved with every read-only query up to the stated depth; read-only queries are shown not to change any later observable",
 }
 
 NOT_APPLICABLE = {}
